@@ -20,6 +20,8 @@ func init() {
 			{ID: "C13.c", Template: "T-TYPESTATE", Required: true,
 				Doc: "In every method of a module type implementing CompressorProvider, each channel send/receive is a case of a non-blocking select and no Lock/Wait is called. A bare send after a len() check is check-then-act: two concurrent releases into one free slot block the second forever inside a response's deferred Close.",
 				Run: ruleC13c},
+			{ID: "C13.i", Template: "T-TYPESTATE", Required: false, Run: ruleNoUseAfterHandOver,
+				Doc: "A provider's Release* method does not touch the object after it was handed over (sync.Pool.Put, channel send): from then on another request may hold it. A Reset placed after the Put resets a compressor that already serves someone else."},
 			{ID: "C13.a", Template: "T-TYPESTATE", Required: true,
 				Doc: "Every object acquired from the CompressorProvider by framework code is released exactly once: a local owner registers `defer Release(x)` directly after acquiring; the field owner (CompressingResponseWriter.compressor) is stored only from an acquire result, released only by the closing function, after compressor.Close(), behind the nil guard that refuses a second Close, and the field is set to nil on every path after the release with no use in between; every other use of the field is behind the nil guard. Breaking any link releases an object twice (two responses share one compressor), never, or uses it after release.",
 				Run: ruleC13a},
